@@ -471,6 +471,8 @@ class Models(object):
             out.append(lit)
             if field is None:
                 continue
+            if conv == "s" and not spec:
+                conv = None                  # '{!s}' is str(x): what '{}' gives for the strings, numbers and None handled below
             if spec or conv:
                 if has_sym(args) or has_sym(kwargs):
                     raise Undecided("format spec with symbolic arguments")
